@@ -126,6 +126,11 @@ class ProcessWorker(Worker):
                     self._result = self._comms.parent_end.get()
                 except queue.Empty:
                     break
+                except Exception:
+                    # the child has sent its result but it cannot be recreated on our side (e.g. an exception whose
+                    # constructor requires arguments), the message is gone so there is nothing more to report
+                    logger.debug('Could not deserialize the final result of {}', self, exc_info=1)
+                    self._result = None
 
             if self._result is None:
                 self._result = (False, None)
